@@ -19,7 +19,7 @@ ASSUMPTIONS = ['token sequence is the library lexer\'s (lexical correctness is C
 BUDGET = {'quick': (8, 60), 'thorough': (16, 400)}
 
 SIZES = {'quick': dict(n_templates=1500, n_mut=24000, n_soup=3000),
-         'thorough': dict(n_templates=12000, n_mut=400000, n_soup=40000)}
+         'thorough': dict(n_templates=12000, n_mut=400000, n_soup=40000, n_gram=150000)}
 
 RECOVERY = ('prefix', 'infix', 'suffix', 'concat_garbage', 'concat_stmt', 'unbalance', 'dup', 'insert')
 
